@@ -250,6 +250,15 @@ def length_in_set(nbits: int, b: pydsdl.BitLengthSet, expanded) -> bool:
 _cache: dict = {}
 
 
+def _reorder(v):
+    """The same value with the keys of every dict inserted in reverse order."""
+    if isinstance(v, dict):
+        return {k: _reorder(x) for k, x in reversed(list(v.items()))}
+    if isinstance(v, list):
+        return [_reorder(x) for x in v]
+    return v
+
+
 def check_case(case, R: engine.Acc):
     if case.get("kind") == "call-history":
         return H.check_history_codec(case["label"], R, 'codec-depends-on-earlier-calls', 'serialize / deserialize use the layout of the type as read in THIS call')
@@ -308,6 +317,16 @@ def check_case(case, R: engine.Acc):
             continue
         if not C.same(back, cv):
             V_("roundtrip-" + desc[0], "deserialize(serialize(v)) returns v (after the cast mode / defaults)", repr(back)[:400], repr(cv)[:400])
+        # a dict is a mapping: the order in which the caller inserted the keys (at any nesting level) is not part of the value
+        ov = _reorder(v)
+        if repr(ov) != repr(v):
+            R.counters["reordered"] += 1
+            try:
+                ogot = pydsdl.serialize(t, ov)
+                if ogot != want:
+                    V_("bytes-depend-on-key-order", "serialize produces exactly the Specification's encoding, whatever the insertion order of the dict keys", {"value": repr(ov)[:300], "bytes": ogot.hex()}, want.hex())
+            except Exception as ex:  # noqa
+                V_("reordered-dict-raised:" + type(ex).__name__, "serialize accepts every valid value", {"value": repr(ov)[:300], "error": repr(ex)[:200]}, want.hex())
         # relaxed spelling
         rv = V.relax(desc, v)
         if repr(rv) != repr(v):
